@@ -191,7 +191,97 @@ fn puzzle_kinds(conds: &Sx) -> Vec<(&'static str, Sx, Sx)> {
     ]
 }
 
+/// signed bundles through the builders with a late-rejected bundle in between: what the mempool
+/// accepted (X and Z, with their own signatures) must be a block that validates *with* signature
+/// checking, under the signature the builder returns
+fn signed_builder_scenarios(rep: &Report) {
+    use chia_bls::{aggregate, sign};
+    use chia_consensus::consensus_constants::TEST_CONSTANTS;
+    use chia_consensus::spendbundle_validation::validate_clvm_and_signature;
+    let mut constants = TEST_CONSTANTS.clone();
+    constants.max_block_cost_clvm = 16_000_000;
+    let sks = drive::test_keys();
+    let phi = Sx::int(1).tree_hash();
+    let signed = |k: usize, parent: [u8; 32], amount: u64| -> SpendBundle {
+        let pk = sks[k].public_key().to_bytes().to_vec();
+        let msg = vec![k as u8 + 1];
+        let s = GSpend::identity(parent, amount, Sx::list(&[drive::cond(50, &[Sx::Atom(pk), Sx::Atom(msg.clone())]), drive::cond(51, &[Sx::atom(&PH2), Sx::int(1)])]));
+        let mut text = msg;
+        text.extend_from_slice(&mc::sx::sha256(&[&parent, &phi, &mc::sx::enc_u64(amount)]));
+        text.extend_from_slice(constants.agg_sig_me_additional_data.as_ref());
+        SpendBundle::new(vec![s.coin_spend()], aggregate([sign(&sks[k], &text)]))
+    };
+    let x = signed(0, [0xa1; 32], 10);
+    let y = signed(1, [0xa2; 32], 0x80);
+    let z = signed(2, [0xa3; 32], 1 << 39);
+    let flags = ConsensusFlags::empty();
+    for b in [&x, &y, &z] {
+        rep.eval();
+        if let Err(e) = validate_clvm_and_signature(b, u64::MAX / 4, &constants, flags) {
+            rep.machinery_error(&format!("signed letter bundle does not validate in the mempool path: {e:?}"));
+            return;
+        }
+    }
+    let truthful = |b: &SpendBundle| -> u64 {
+        let (r, _) = run_bundle(b, u64::MAX / 4, ConsensusFlags::DONT_VALIDATE_SIGNATURE, &constants).expect("valid");
+        r.execution_cost + r.condition_cost
+    };
+    let (tx, ty, tz) = (truthful(&x), truthful(&y), truthful(&z));
+    for interned in [false, true] {
+        let tag = if interned { "InternedBlockBuilder" } else { "BlockBuilder" };
+        // dry run to find the declared cost of Y that passes the early check and fails the late one
+        let late_cost = {
+            if interned {
+                let mut b = InternedBlockBuilder::new(&constants);
+                let _ = b.add_spend_bundles([&x], tx);
+                let _ = b.add_spend_bundles([&y], ty);
+                constants.max_block_cost_clvm - (b.cost() - ty) + 1
+            } else {
+                let mut b = BlockBuilder::new().unwrap();
+                let _ = b.add_spend_bundles([&x], tx, &constants);
+                let _ = b.add_spend_bundles([&y], ty, &constants);
+                constants.max_block_cost_clvm - (b.cost() - ty) + 1
+            }
+        };
+        let r: Result<(Vec<u8>, chia_bls::Signature, Vec<bool>), String> = catch(|| {
+            if interned {
+                let mut b = InternedBlockBuilder::new(&constants);
+                let a1 = b.add_spend_bundles([&x], tx).unwrap().0;
+                let a2 = b.add_spend_bundles([&y], late_cost).unwrap().0;
+                let a3 = b.add_spend_bundles([&z], tz).unwrap().0;
+                let (g, s, _) = b.finalize().unwrap();
+                (g, s, vec![a1, a2, a3])
+            } else {
+                let mut b = BlockBuilder::new().unwrap();
+                let a1 = b.add_spend_bundles([&x], tx, &constants).unwrap().0;
+                let a2 = b.add_spend_bundles([&y], late_cost, &constants).unwrap().0;
+                let a3 = b.add_spend_bundles([&z], tz, &constants).unwrap().0;
+                let (g, s, _) = b.finalize(&constants).unwrap();
+                (g, s, vec![a1, a2, a3])
+            }
+        });
+        rep.eval();
+        let case = json!({"signed_builder": tag});
+        match r {
+            Err(p) => rep.violation(&format!("C08/{tag}/panic"), case, p),
+            Ok((g, sig, added)) => {
+                if added != vec![true, false, true] {
+                    rep.machinery_error(&format!("{tag}: the late-rejection scenario did not play out as constructed: {added:?}"));
+                    continue;
+                }
+                let gf = if interned { flags | ConsensusFlags::INTERNED_GENERATOR } else { flags };
+                match run_gen2(&g, &[], u64::MAX / 4, gf, &sig, &constants) {
+                    Ok(o) if o.validated_signature && o.summary.spends.len() == 2 => rep.outcome("signed-builder/block-validates-with-signature"),
+                    Ok(o) => rep.violation(&format!("C08/{tag}/signed-block-wrong-content"), case, format!("{} spends, validated_signature {}", o.summary.spends.len(), o.validated_signature)),
+                    Err(e) => rep.violation(&format!("C08/{tag}/mempool-accepts-block-rejects-with-signature"), case, format!("bundles X and Z were accepted by the mempool path and by the builder (Y was declined after serialisation), but the block does not validate under the builder's signature: {e:?}")),
+                }
+            }
+        }
+    }
+}
+
 fn run(rep: &Report) {
+    signed_builder_scenarios(rep);
     let env = drive::env();
     let thorough = rep.tier == mc::Tier::Thorough;
     let phi = Sx::int(1).tree_hash();
@@ -239,7 +329,7 @@ fn run(rep: &Report) {
         spends: vec![GSpend::identity(P1, 5, Sx::list(&[drive::cond(51, &[Sx::atom(&phi), Sx::int(3)])])), GSpend::identity(a_id, 3, Sx::list(&[drive::cond(76, &[])])), GSpend::identity(P2, 5, Sx::nil())],
         wrong_hash: false,
     });
-    rep.set_rule("bundles: (1) one spend x 23 amounts (every encoding length class) x 4 puzzle kinds (identity, quoted, apply-wrapper, raise) x <=1 of ~108 interaction letters (quick: non-identity puzzles only for 3 amounts) + a wrong-declared-hash letter per amount; (2) amount 5, identity puzzle, every ordered pair of letters (quick: one third); (3) two spends sharing the puzzle with <=1 letter each; (4) an ephemeral chain of three; each under {MEMPOOL_MODE} x {COST_CONDITIONS} x {INTERNED_GENERATOR} through run_spendbundle and run_block_generator2 on solution_generator, solution_generator_backrefs, BlockBuilder and InternedBlockBuilder output. distinct = distinct bundles");
+    rep.set_rule("bundles: (1) one spend x 23 amounts (every encoding length class) x 4 puzzle kinds (identity, quoted, apply-wrapper, raise) x <=1 of ~108 interaction letters (quick: non-identity puzzles only for 3 amounts) + a wrong-declared-hash letter per amount; (2) amount 5, identity puzzle, every ordered pair of letters (quick: one third); (3) two spends sharing the puzzle with <=1 letter each; (4) an ephemeral chain of three; (5) three signed bundles through each builder with the middle one declined after serialisation, validated with signature checking; each under {MEMPOOL_MODE} x {COST_CONDITIONS} x {INTERNED_GENERATOR} through run_spendbundle and run_block_generator2 on solution_generator, solution_generator_backrefs, BlockBuilder and InternedBlockBuilder output. distinct = distinct bundles");
     rep.assume("mempool-only eligibility flags are masked; summaries are compared order-insensitively (generators list the spends in reverse bundle order)");
     rep.extra("cases", json!(cases.len()));
     cases.par_chunks(32).for_each(|chunk| {
@@ -265,6 +355,9 @@ fn run(rep: &Report) {
 }
 
 fn replay(case: &Value) -> String {
+    if case.get("signed_builder").is_some() {
+        return "signed builder scenario: re-run the check".into();
+    }
     let spends: Vec<GSpend> = case["spends"].as_array().unwrap().iter().map(|s| GSpend {
         parent: hex::decode(s["parent"].as_str().unwrap()).unwrap().try_into().unwrap(),
         amount: s["amount"].as_u64().unwrap(),
